@@ -1,4 +1,4 @@
-import Wasp.Model.AckQueue
+import Wasp.Proofs.AckQueue
 /-!
 # C04 — every in-flight entry is resolved exactly once and independently of the others
 
@@ -34,11 +34,17 @@ structure Inv (q : Queue) : Prop where
   /-- buckets are sorted by deadline (what bucket.delete's binary search relies on) -/
   bucketsSorted : ∀ t b, (t, b) ∈ q.timeouts → b.Pairwise (fun x y => x.deadline ≤ y.deadline)
 
-theorem C04_inv_init : Inv {} := by
-  sorry
+/-- `Inv` is the invariant `QInv` of `Wasp.Proofs.AckQueue` (same fields) -/
+theorem Inv.toQ {q : Queue} (h : Inv q) : QInv q :=
+  ⟨h.keysNodup, h.bucketKeysNodup, h.hasTimer, h.timerHasEntry, h.timersNodup, h.bucketsSorted⟩
 
-theorem C04_inv_step (q : Queue) (h : Inv q) (op : Op) : Inv (step q op).1 := by
-  sorry
+theorem Inv.ofQ {q : Queue} (h : QInv q) : Inv q :=
+  ⟨h.keysNodup, h.bucketKeysNodup, h.hasTimer, h.timerHasEntry, h.timersNodup, h.bucketsSorted⟩
+
+theorem C04_inv_init : Inv {} := Inv.ofQ qinv_init
+
+theorem C04_inv_step (q : Queue) (h : Inv q) (op : Op) : Inv (step q op).1 :=
+  Inv.ofQ (qinv_step h.toQ op)
 
 def run : Queue → List Op → List (Res × List Resolved)
   | _, [] => []
@@ -50,7 +56,10 @@ def runState : Queue → List Op → Queue
 
 /-- the invariant holds in every reachable state -/
 theorem C04_inv (ops : List Op) : Inv (runState {} ops) := by
-  sorry
+  suffices h : ∀ q, Inv q → Inv (runState q ops) from h _ C04_inv_init
+  induction ops with
+  | nil => exact fun q h => h
+  | cons op ops ih => exact fun q h => ih _ (C04_inv_step q h op)
 
 /-- a sweep resolves exactly the registered entries whose rounded deadline is before `now`,
     each exactly once, as `expired`, and removes exactly those -/
@@ -62,8 +71,8 @@ theorem C04_expire_exact (q : Queue) (h : Inv q) (now : Time) :
     (∀ k, msgFind k r.1.msgs =
        match msgFind k q.msgs with
        | some m => if roundSec m.deadline < now then none else some m
-       | none => none) := by
-  sorry
+       | none => none) :=
+  ⟨h.toQ.expire_events now, h.toQ.expire_events_nodup now, h.toQ.expire_find now⟩
 
 /-- an acknowledgement of the expected type resolves exactly its entry, as `acknowledged` -/
 theorem C04_ack_ok (q : Queue) (pfx : String) (kind : PType) (mid : Int) (m : Msg)
@@ -71,26 +80,32 @@ theorem C04_ack_ok (q : Queue) (pfx : String) (kind : PType) (mid : Int) (m : Ms
     let r := ack q pfx kind true mid
     r.2.1 = .ok ∧ r.2.2 = [⟨hashKey pfx mid, false, m.stored⟩] ∧
     (∀ k, msgFind k r.1.msgs = if k = hashKey pfx mid then none else msgFind k q.msgs) := by
-  sorry
+  simp only [ack_ok_eq hm hk, true_and]
+  exact fun k => msgFind_erase hq.keysNodup
 
 /-- wrong packet type, unknown identifier, packet without identifier: nothing changes,
     nothing fires -/
 theorem C04_ack_noop (q : Queue) (pfx : String) (kind : PType) (hasMid : Bool) (mid : Int)
     (h : (ack q pfx kind hasMid mid).2.1 ≠ .ok) :
     (ack q pfx kind hasMid mid).1 = q ∧ (ack q pfx kind hasMid mid).2.2 = [] := by
-  sorry
+  rcases ack_cases q pfx kind hasMid mid with ⟨h1, _⟩ | ⟨_, m, _, _, heq⟩
+  · rw [h1]; exact ⟨rfl, rfl⟩
+  · rw [heq] at h; exact absurd rfl h
 
 /-- a rejected registration (duplicate identifier, identifier 0, wrong kind or QoS) changes nothing -/
 theorem C04_insert_rejected (q : Queue) (pfx : String) (kind : PType) (qos : Nat) (mid : Int) (d : Time)
     (h : (insert q pfx kind qos mid d).2 ≠ .ok) : (insert q pfx kind qos mid d).1 = q := by
-  sorry
+  rcases insert_cases q pfx kind qos mid d with ⟨h1, _⟩ | ⟨st, _, _, heq⟩
+  · exact h1
+  · rw [heq] at h; exact absurd rfl h
 
 /-- a duplicate identifier is rejected -/
 theorem C04_insert_dup (q : Queue) (pfx : String) (kind : PType) (qos : Nat) (mid : Int) (d : Time) (m : Msg)
     (hm : msgFind (hashKey pfx mid) q.msgs = some m) (hmid : mid ≠ 0)
     (hk : ∃ st, expectedAck kind qos = .ok st) (hkind : kind = .pubrec ∨ kind = .pubrel ∨ kind = .publish) :
     (insert q pfx kind qos mid d).2 = .errDupMID := by
-  sorry
+  obtain ⟨st, hst⟩ := hk
+  rcases hkind with rfl | rfl | rfl <;> simp [insert, hmid, hst, hm]
 
 /-! ## the specification monitor -/
 
@@ -146,9 +161,132 @@ def traceOk : Live → List (Op × Res × List Resolved) → Bool
     | some live' => traceOk live' rest
     | none => false
 
+theorem liveFind_eq (k : Key) (l : Live) : liveFind k l = afind k l := by
+  induction l with
+  | nil => rfl
+  | cons x rest ih => obtain ⟨k', v⟩ := x; simp [liveFind, afind, ih]
+
+/-- the monitor's table mirrors the queue's table -/
+def Mirror (live : Live) (q : Queue) : Prop :=
+  (live.map (·.1)).Nodup ∧
+  ∀ k, liveFind k live = (msgFind k q.msgs).map (fun m => (m.state, m.stored, m.deadline))
+
+theorem judge_insert {q : Queue} {live : Live} (hm : Mirror live q)
+    (pfx : String) (kind : PType) (qos : Nat) (mid : Int) (d : Time) :
+    ∃ live', judge live (.insert pfx kind qos mid d) (insert q pfx kind qos mid d).2 [] = some live' ∧
+      Mirror live' (insert q pfx kind qos mid d).1 := by
+  rcases insert_cases q pfx kind qos mid d with ⟨h1, h2, _⟩ | ⟨st, hst, hnone, heq⟩
+  · exact ⟨live, by simp [judge, h2], by rw [h1]; exact hm⟩
+  · have hl : liveFind (hashKey pfx mid) live = none := by rw [hm.2, hnone]; rfl
+    refine ⟨live ++ [(hashKey pfx mid, st, kind, d)], by simp [judge, heq, hl, hst], ?_⟩
+    rw [heq]
+    refine ⟨append_keys_nodup _ hm.1 (by rw [← liveFind_eq]; exact hl), fun k => ?_⟩
+    show liveFind k _ = (msgFind k (q.msgs ++ _)).map _
+    rw [liveFind_eq, afind_append, ← liveFind_eq, hm.2, msgFind_append]
+    cases msgFind k q.msgs with
+    | some m => rfl
+    | none => by_cases e : hashKey pfx mid = k <;> simp [afind, msgFind, e]
+
+theorem judge_ack {q : Queue} (hq : Inv q) {live : Live} (hm : Mirror live q)
+    (pfx : String) (kind : PType) (hasMid : Bool) (mid : Int) :
+    ∃ live', judge live (.ack pfx kind hasMid mid) (ack q pfx kind hasMid mid).2.1
+        (ack q pfx kind hasMid mid).2.2 = some live' ∧
+      Mirror live' (ack q pfx kind hasMid mid).1 := by
+  have hl := hm.2 (hashKey pfx mid)
+  rcases ack_cases q pfx kind hasMid mid with ⟨h1, h2, h3⟩ | ⟨hmid, m, hfind, hst, heq⟩
+  · refine ⟨live, ?_, by rw [h1]; exact hm⟩
+    rw [h1]
+    cases hf : msgFind (hashKey pfx mid) q.msgs with
+    | none => rw [hf] at hl; simp [judge, hl, h2]
+    | some m =>
+      rw [hf] at hl
+      have : ¬ (hasMid = true ∧ m.state = kind) := fun ⟨a, b⟩ => h3 ⟨a, m, hf, b⟩
+      simp [judge, hl, h2, this]
+  · subst hmid
+    rw [hfind] at hl
+    refine ⟨liveErase (hashKey pfx mid) live, by simp [judge, heq, hl, hst], ?_⟩
+    rw [heq]
+    refine ⟨filter_keys_nodup _ hm.1, fun k => ?_⟩
+    show liveFind k (live.filter _) = (msgFind k (msgErase _ q.msgs)).map _
+    rw [msgFind_erase hq.keysNodup, liveFind_eq,
+      afind_filter (fun k' => decide (k' ≠ hashKey pfx mid)), ← liveFind_eq, hm.2]
+    by_cases e : k = hashKey pfx mid <;> simp [e]
+
+theorem judge_expire {q : Queue} (hq : Inv q) {live : Live} (hm : Mirror live q) (now : Time) :
+    ∃ live', judge live (.expire now) .ok (expire q now).2 = some live' ∧
+      Mirror live' (expire q now).1 := by
+  have hev := hq.toQ.expire_events now
+  have hfire := hq.toQ.expire_fires now
+  have hany : ∀ k, (expire q now).2.any (fun ev => decide (ev.key = k)) = true ↔
+      ∃ m, msgFind k q.msgs = some m ∧ roundSec m.deadline < now := by
+    intro k; rw [← hfire]; simp
+  have hA : ((expire q now).2.all (fun ev => ev.expired &&
+          match liveFind ev.key live with
+          | some (_, stored, d) => decide (stored = ev.stored) && decide (d - 1000 < now)
+          | none => false)) = true := by
+    rw [List.all_eq_true]
+    intro ev hmem
+    obtain ⟨m, h1, h2, h3, h4⟩ := (hev ev).mp hmem
+    have hb := (roundSec_bounds m.deadline).1
+    have : m.deadline - 1000 < now := by tomega
+    simp [hm.2, h1, h3, h4, this]
+  have hC : (live.all (fun e => decide (now < e.2.2.2 + 1000) ||
+      (expire q now).2.any (fun ev => ev.key = e.1))) = true := by
+    rw [List.all_eq_true]
+    intro e he
+    obtain ⟨k, st, stored, d⟩ := e
+    have hf := afind_of_mem hm.1 he
+    rw [← liveFind_eq, hm.2] at hf
+    cases hmf : msgFind k q.msgs with
+    | none => rw [hmf] at hf; cases hf
+    | some m =>
+      rw [hmf] at hf
+      simp only [Option.map_some, Option.some.injEq, Prod.mk.injEq] at hf
+      by_cases hlt : now < d + 1000
+      · simp [hlt]
+      · have hb := (roundSec_bounds m.deadline).2
+        have hd := hf.2.2
+        have : roundSec m.deadline < now := by tomega
+        simp [(hany k).mpr ⟨m, hmf, this⟩]
+  refine ⟨_, if_pos ⟨hA, hq.toQ.expire_events_nodup now, hC⟩, filter_keys_nodup _ hm.1, fun k => ?_⟩
+  · show liveFind k (live.filter _) = (msgFind k (expire q now).1.msgs).map _
+    rw [hq.toQ.expire_find, liveFind_eq,
+      afind_filter (fun k' => !(expire q now).2.any (fun ev => decide (ev.key = k'))),
+      ← liveFind_eq, hm.2]
+    have := hany k
+    cases hmf : msgFind k q.msgs with
+    | none => simp
+    | some m =>
+      rw [hmf] at this
+      simp only [Option.some.injEq, exists_eq_left'] at this
+      by_cases hlt : roundSec m.deadline < now
+      · simp [hlt, this.mpr hlt]
+      · have : ¬ (expire q now).2.any (fun ev => decide (ev.key = k)) = true := fun h => hlt (this.mp h)
+        simp [hlt, this]
+
+theorem judge_step {q : Queue} (hq : Inv q) {live : Live} (hm : Mirror live q) (op : Op) :
+    ∃ live', judge live op (step q op).2.1 (step q op).2.2 = some live' ∧
+      Mirror live' (step q op).1 := by
+  cases op with
+  | insert pfx kind qos mid d => exact judge_insert hm pfx kind qos mid d
+  | ack pfx kind hasMid mid => exact judge_ack hq hm pfx kind hasMid mid
+  | expire now => exact judge_expire hq hm now
+
+/-- the trace from ANY coherent state is accepted by a monitor that mirrors it -/
+theorem traceOk_run (ops : List Op) : ∀ (q : Queue) (live : Live), Inv q → Mirror live q →
+    traceOk live (ops.zip (run q ops)) = true := by
+  induction ops with
+  | nil => intros; rfl
+  | cons op ops ih =>
+    intro q live hq hm
+    obtain ⟨live', h1, h2⟩ := judge_step hq hm op
+    show traceOk live ((op, (step q op).2.1, (step q op).2.2) :: ops.zip (run (step q op).1 ops)) = true
+    simp only [traceOk, h1]
+    exact ih _ _ (C04_inv_step q hq op) h2
+
 /-- C04: every history's observable trace is accepted by the monitor -/
-theorem C04_trace (ops : List Op) : traceOk [] (ops.zip (run {} ops)) = true := by
-  sorry
+theorem C04_trace (ops : List Op) : traceOk [] (ops.zip (run {} ops)) = true :=
+  traceOk_run ops {} [] C04_inv_init ⟨by simp, fun k => rfl⟩
 
 /-- non-vacuity: equal deadlines, same-second deadlines, a wrong-type ack, a duplicate, a sweep -/
 example : run {} [.insert "s" .publish 1 1 3000, .insert "s" .publish 2 2 3000, .insert "t" .publish 1 1 3400,
